@@ -672,38 +672,48 @@ def judge(part, line, exp, res):
                 part.count("swap-f2n-checked")
 
 
+_CHUNK = 600     # programs per harness process (bounds the memory held by parsed dumps)
+
+
 def _worker(args):
     seed, shard, count, exe = args
     rng = gen.rng_for(seed, PROP, shard)
     part = report.Part()
     stats = collections.Counter()
-    progs = []
-    tries = 0
-    while len(progs) < count and tries < count * 3 + 10:
-        tries += 1
-        g = gen_program(rng, stats)
-        if g is not None:
-            progs.append(g)
+    done = 0
+    while done < count:
+        want = min(_CHUNK, count - done)
+        progs = []
+        tries = 0
+        while len(progs) < want and tries < want * 3 + 10:
+            tries += 1
+            g = gen_program(rng, stats)
+            if g is not None:
+                progs.append(g)
+        if not progs:
+            part.inconclusive.append("generator produced no program in %d tries" % tries)
+            break
+        res = hrun.run_cases(exe, [ln for ln, _ in progs], env=_ENV, per_batch_timeout=900)
+        for i, (line, exp) in enumerate(progs):
+            part.evaluations += 1
+            part.count("programs")
+            nontrivial = bool(exp["sig"]) or any(c not in wire.REQUIRED.get(exp["mtype"], ()) for c in exp["fields"])
+            if nontrivial:
+                tb = exp["mtype"] if exp["mtype"] <= 4 else 5
+                part.sig(tb, exp["ctor"], tuple(sorted(exp["fields"])), exp["skeleton"])
+            else:
+                part.count("trivial-programs")
+            judge(part, line, exp, res[i])
+            if shard == 0 and done == 0 and i < 3:
+                part.sample({"program": line[:700], "body_signature": exp["sig"].decode("latin1")[:80],
+                             "marshalled": (res[i] or {}).get("bytes", "")[:300] if isinstance(res[i], dict) else None})
+        for extra in res[len(progs):]:
+            br = extra.get("batch_report") if extra else None
+            if br:
+                part.violation("%s:%s:%s" % (PROP, br["class"][0], br["class"][1]), "report at harness exit", {"stderr": br["stderr"][-3000:]})
+        done += len(progs)
     for k, v in stats.items():
         part.count(k, v)
-    res = hrun.run_cases(exe, [ln for ln, _ in progs], env=_ENV, per_batch_timeout=900)
-    for i, (line, exp) in enumerate(progs):
-        part.evaluations += 1
-        part.count("programs")
-        nontrivial = bool(exp["sig"]) or any(c not in wire.REQUIRED.get(exp["mtype"], ()) for c in exp["fields"])
-        if nontrivial:
-            tb = exp["mtype"] if exp["mtype"] <= 4 else 5
-            part.sig(tb, exp["ctor"], tuple(sorted(exp["fields"])), exp["skeleton"])
-        else:
-            part.count("trivial-programs")
-        judge(part, line, exp, res[i])
-        if shard == 0 and i < 3:
-            part.sample({"program": line[:700], "body_signature": exp["sig"].decode("latin1")[:80],
-                         "marshalled": (res[i] or {}).get("bytes", "")[:300] if isinstance(res[i], dict) else None})
-    for extra in res[len(progs):]:
-        br = extra.get("batch_report") if extra else None
-        if br:
-            part.violation("%s:%s:%s" % (PROP, br["class"][0], br["class"][1]), "report at harness exit", {"stderr": br["stderr"][-3000:]})
     return part
 
 
@@ -728,7 +738,7 @@ def run(tier, seed, replay=None, scale=1.0):
         part.sig("replay", 2)
         r.merge(part)
         return r.finish()
-    total = int((60000 if tier == "quick" else 1200000) * scale)
+    total = int((30000 if tier == "quick" else 800000) * scale)
     nshards = 16 if tier == "quick" else 256
     per = max(1, total // nshards)
     shards = [(seed, i, per, exe) for i in range(nshards)]
